@@ -23,8 +23,8 @@ RULE = (
     "Oracle: every in-flight validation's verdict must be explainable by the initial checker or a registration on that "
     "name that had started; after all threads have finished, every name with a completed registration is registered (no "
     "'unregistered' warning) and its verdicts over the probe strings equal those of a registration that no other "
-    "registration on the name strictly followed. Non-trivial run: >=2 threads registering (>=1 pair on different names "
-    "overlapping in time) and >=1 pre-emption inside register/__call__."
+    "registration on the name strictly followed. Non-trivial run: >=2 threads registering, >=1 pair of registrations on "
+    "different names overlapping in time or >=1 validation overlapping a registration of its name, and >=1 pre-emption."
 )
 COMPONENTS = {
     "real": ["statham format_checker / Format validator / String element", "CPython threads"],
@@ -93,6 +93,7 @@ def gen_case(rng):
         "first": rng.randrange(n_threads),
         "policy": tprog.gen_policy(rng, n_threads, 60 * sum(len(t) for t in threads)),
         "policy_seed": rng.getrandbits(48),
+        "opcodes": tprog.gen_granularity(rng),
     }
     install_validator_order(perm)
     _reset()
@@ -196,8 +197,20 @@ def _exec(case, log, stats):
     registering_threads = sum(
         1 for ops in case["threads"] if any(op["op"] == "register" for op in ops)
     )
+    racing_validations = 0
+    for tid, ops in enumerate(case["threads"]):
+        for idx, op in enumerate(ops):
+            if op["op"] != "validate":
+                continue
+            start, end, _ = record[(tid, idx)]
+            for rstart, rend, _ in regs.get(op["name"], []):
+                if rstart <= end and start <= rend:
+                    racing_validations += 1
+    stats.inc("validations_overlapping_a_registration_of_their_name", racing_validations)
     stats["_nontrivial"] = int(
-        registering_threads >= 2 and overlapping_pairs >= 1 and sch.switches >= 1
+        registering_threads >= 2
+        and (overlapping_pairs >= 1 or racing_validations >= 1)
+        and sch.switches >= 1
     )
     return None
 
